@@ -16,11 +16,13 @@ PROP = {'technique': 'property-based testing (rapid): sequential model-based sta
          'report, or a kick between two reports of one user. E2E: 1-6 connections on 1-3 user ids, 0-2 of them raw HTTP/3 clients that repeat the auth request (good, bad, other '
          'user\'s credentials) on an already counted connection or only ever send rejected credentials; non-trivial: at least one disconnect '
          '(close, kick, or shutdown) of an authenticated connection while another connection stays, a kick consumed by a real report, '
-         'or a repeated auth request on an authenticated connection. '
+         'a repeated auth request on an authenticated connection, or a slow-logger op (LogOnlineState / Connect / Disconnect parked by the '
+         'harness while a client hangs up right after its auth answer, or while another connection of the user arrives). '
          'Distinct = distinct op-kind sequences.',
  'assumptions': ['offline notifications are paired with online notifications (the server guarantees it; stray ones are only checked for non-negativity)',
                  'per-user linearizability is checked; atomicity of one snapshot across different users is not part of the statement',
-                 'e2e quiescent points rely on the server calling EventLogger.Connect/Disconnect next to LogOnlineState (5 s grace otherwise)'],
+                 'e2e quiescent points rely on the server calling EventLogger.Connect/Disconnect next to LogOnlineState (5 s grace otherwise)',
+                 'parked logger calls are held at most 120 ms (5x that once the client has hung up); the holds shape the schedule only, no verdict depends on them'],
  'tests': [{'name': 'TestVerifC15_Sequential', 'unit': TL, 'quick': 3000, 'thorough': 20000, 'shards_thorough': 8},
            {'name': 'TestVerifC15_Concurrent', 'unit': TL, 'race': True, 'quick': 300, 'thorough': 1500, 'shards_thorough': 8,
             'timeout_quick': 600, 'timeout_thorough': 3600},
